@@ -541,7 +541,7 @@ class StrOraclePart(FiPart):
 
 class C12(Spec):
     pid = "C12"
-    props_modules = ["DSProofs.Props.C12", "DSProofs.Props.C12Gen"]
+    props_modules = ["DSProofs.Props.C12", "DSProofs.Props.C12Gen", "DSProofs.Props.C12_Repaired"]
     harness = "fi_h"
     model_exe = "dsmodel_fi"
     family = "fi"
@@ -579,10 +579,14 @@ CLAIM = dict(
           "(the code's internal logic_errors are unreachable). "
           "The model is tied to the real headers differentially (L1 observations for every item of the universe; free choices resolved "
           "by an L2 model of reverse_purge_hash_map) and the property oracle (exact counts) runs on every implementation trace."),
-    note=("Proved false of the current code (witnesses in Props/C12.lean, replayed every run, open known findings): NO_FALSE_NEGATIVES "
-          "with threshold < maximum error omits purged items; merge() and serialize() treat a fully purged sketch (no active item, "
-          "non-zero total weight and maximum error) as empty and drop its total weight and error; update() throws at DRIFT_LIMIT "
-          "(>= 1023 colliding keys in a table of >= 2048 slots) after adding the weight to total_weight (outside the theorems). Of the L2 refinement only "
+    note=("Found by this check and repaired in /repo (fix: b11a99c, with 993b0e0 for the zero-length memcpy it exposed; known_findings.json: "
+          "fixed): merge() and serialize() treated a fully purged sketch (no active item, non-zero total weight and maximum error) as empty "
+          "and dropped its total weight and error - the translator reads the shape of is_empty() from the header, the executed model follows "
+          "(mergeF/roundtripF) and Props/C12_Repaired.lean proves bracketing + exact total for ALL histories of the repaired shape "
+          "(fi_bracket_all_histories), while Props/C12.lean keeps the pinned-code witnesses. OPEN known findings (proved false of the code, "
+          "witnesses replayed every run): NO_FALSE_NEGATIVES with threshold < maximum error omits purged items (inherent to the algorithm; the "
+          "property's 'all thresholds' cannot be met without changing semantics); update() throws at DRIFT_LIMIT (>= 1023 colliding keys in a "
+          "table of >= 2048 slots) after adding the weight to total_weight (outside the theorems). Of the L2 refinement only "
           "fi_l2_purge_amount (sample = all counters, median order-independent) is proved; probe chains / hash_delete / scan order "
           "of the table model are tied by correspondence only. Floating-point rounding and uint64 overflow are not modelled."),
     technique="Lean 4 invariant proofs over an inductive reachability relation with universally quantified free choices + differential correspondence (L1 via L2) + trace oracle",
